@@ -466,3 +466,104 @@ Example C14_nonvacuous_root :
   rrun None [RDwc ANew [RObs; RInit; RObs; RSetNew]; RObs] =
     ([REObs (Some (Some 1)); REObs (Some None); REObs None], None).
 Proof. vm_compute. auto. Qed.
+
+(* ---- the implementation registry: a chain of levels with LIVE references (Model/CtxReg.v) ----------------------------- *)
+From PcoreV Require Import Model.CtxReg Proofs.CtxRegProofs.
+
+(* "the parent's [definitions] are visible to the child": a definition of a Go-backed type has a loader half and a
+   registry half (Go type <-> type); pxContext.Fork wraps both.  For EVERY history of context creations
+   (pcore.NewContext, pcore.Do, Context.Fork / px.Fork / px.Go / pcore.DoWithParent(c, ..), pcore.WithParent),
+   registrations, loader definitions and observations, and every registry level l that exists after it: a lookup
+   through l (ReflectedToType g, TypeToReflected n) is the entry of the first level, from the oldest ancestor of l
+   down to l itself, that holds one NOW - whenever that level got it, before or after l was created; never out of fuel. *)
+Theorem C14_registry_child_sees_what_ancestors_hold_now :
+  forall (os : list hop) (l : raddr),
+    let rh := s_rh (hfinal os) in
+    l < length rh ->
+    exists ls, chain_of rh l = Some ls /\ (forall a, In a ls -> a <= l) /\
+               (forall g, r2t rh l g = first_held (own_r2t g) rh ls) /\
+               (forall n, t2r rh l n = first_held (own_t2r n) rh ls).
+Proof. exact lookup_now. Qed.
+Print Assumptions C14_registry_child_sees_what_ancestors_hold_now.
+
+(* ... and the chain of a level is fixed when the level is made: whatever happens later (any history os2), the levels
+   consulted through l are the same, in the same order - levels that hold nothing at fork time included *)
+Theorem C14_registry_chain_fixed :
+  forall (os1 os2 : list hop) (l : raddr),
+    l < length (s_rh (hfinal os1)) ->
+    chain_of (s_rh (fst (hrun_from (hfinal os1) os2))) l = chain_of (s_rh (hfinal os1)) l.
+Proof. exact chain_fixed. Qed.
+Print Assumptions C14_registry_chain_fixed.
+
+(* late registrations: after ANY history, a registration of (t, g) through context c that succeeds is found through
+   every level whose chain contains the level of c - c itself and its forks of every depth, whatever the levels in
+   between hold: the Go type g gives the type object t, the name of t gives g *)
+Theorem C14_registry_late_registration_reaches_descendants :
+  forall (os : list hop) (c : nat) (x : rctx) (t : ptype) (g : gotype) (l : raddr) (ls : list raddr),
+    let st := hfinal os in
+    nth_error (s_cx st) c = Some x -> snd (hstep st (HRegister c t g)) = HOk ->
+    chain_of (s_rh st) l = Some ls -> In (x_reg x) ls ->
+    let st' := fst (hstep st (HRegister c t g)) in
+    (exists t', r2t (s_rh st') l g = RFound t' /\ t_id t' = t_id t) /\
+    (t_name t <> 0%N -> t2r (s_rh st') l (t_name t) = RFound g).
+Proof. exact registration_reaches. Qed.
+Print Assumptions C14_registry_late_registration_reaches_descendants.
+
+(* isolation the other way round: a call changes what is found through level l only if it is a registration through a
+   context whose level is in the chain of l (l's own context or an ancestor) ... *)
+Theorem C14_registry_fork_isolated :
+  forall (os : list hop) (o : hop) (l : raddr) (ls : list raddr),
+    let st := hfinal os in
+    chain_of (s_rh st) l = Some ls ->
+    (forall c t g x, o = HRegister c t g -> nth_error (s_cx st) c = Some x -> ~ In (x_reg x) ls) ->
+    let st' := fst (hstep st o) in
+    (forall g, r2t (s_rh st') l g = r2t (s_rh st) l g) /\ (forall n, t2r (s_rh st') l n = t2r (s_rh st) l n).
+Proof. exact step_isolated. Qed.
+Print Assumptions C14_registry_fork_isolated.
+
+(* ... and the chain of a level holds older levels only: the level of a fork made later (address = the number of
+   levels now) is in the chain of no existing level - parent and siblings never look into it *)
+Theorem C14_registry_fork_level_unseen :
+  forall (os : list hop) (l : raddr) (ls : list raddr) (a : raddr),
+    chain_of (s_rh (hfinal os)) l = Some ls -> In a ls -> a < length (s_rh (hfinal os)).
+Proof. exact chain_is_old. Qed.
+Print Assumptions C14_registry_fork_level_unseen.
+
+(* not a snapshot: a context d made from context c by Fork (any route) or by WithParent on c's registry finds, after
+   ANY later history os2 in which nothing is registered through d itself, for every Go type and every name exactly
+   what c finds at that time *)
+Theorem C14_registry_fork_tracks_parent :
+  forall (os1 : list hop) (o : hop) (c : nat) (os2 : list hop),
+    let st := hfinal os1 in
+    let d := length (s_cx st) in
+    forks_registry o c -> snd (hstep st o) = HOk ->
+    forallb (fun o => negb (registers_through d o)) os2 = true ->
+    let st2 := fst (hrun_from (fst (hstep st o)) os2) in
+    exists xd xc, nth_error (s_cx st2) d = Some xd /\ nth_error (s_cx st2) c = Some xc /\
+      (forall g, look (own_r2t g) st2 (x_reg xd) = look (own_r2t g) st2 (x_reg xc)) /\
+      (forall n, look (own_t2r n) st2 (x_reg xd) = look (own_t2r n) st2 (x_reg xc)).
+Proof. exact fork_tracks_parent. Qed.
+Print Assumptions C14_registry_fork_tracks_parent.
+
+(* non-vacuity: pcore.Do; a fork c1 of its context c0; a fork c2 of c1; a sibling c3; THEN c0 registers (type 4 named 3,
+   Go type 3) and defines n2: c2, two empty levels below, finds both halves; c2 registers Go type 0 - c0, c1 and c3
+   do not find it; another type object for Go type 3 is refused through c2 (ImplAlreadyRegistered) *)
+Example C14_nonvacuous_registry :
+  snd (hrun [HDo; HFork 0; HFork 1; HFork 0; HObserve 2;
+             HRegister 0 {| t_id := 4; t_name := 3 |} 3%N; HDefine 0 2%N 30%Z; HObserve 2;
+             HRegister 2 {| t_id := 1; t_name := 1 |} 0%N; HRegister 2 {| t_id := 3; t_name := 1 |} 3%N;
+             HObserve 1; HObserve 3; HObserve 2]) =
+  [HOk; HOk; HOk; HOk;
+   HObs [RMissing; RMissing; RMissing; RMissing] [RMissing; RMissing; RMissing; RMissing] [RMissing; RMissing; RMissing]
+        [LMissing; LMissing; LMissing];
+   HOk; HOk;
+   HObs [RMissing; RMissing; RMissing; RFound 4%N] [RMissing; RMissing; RMissing; RFound 3%N] [RMissing; RMissing; RFound 3%N]
+        [LMissing; LMissing; LFound 30%Z];
+   HOk; HAlready;
+   HObs [RMissing; RMissing; RMissing; RFound 4%N] [RMissing; RMissing; RMissing; RFound 3%N] [RMissing; RMissing; RFound 3%N]
+        [LMissing; LMissing; LFound 30%Z];
+   HObs [RMissing; RMissing; RMissing; RFound 4%N] [RMissing; RMissing; RMissing; RFound 3%N] [RMissing; RMissing; RFound 3%N]
+        [LMissing; LMissing; LFound 30%Z];
+   HObs [RFound 1%N; RMissing; RMissing; RFound 4%N] [RFound 1%N; RMissing; RMissing; RFound 3%N] [RFound 0%N; RMissing; RFound 3%N]
+        [LMissing; LMissing; LFound 30%Z]].
+Proof. vm_compute. reflexivity. Qed.
